@@ -33,7 +33,7 @@ def run_c12(args, leg, sb):
     flagset = [0, 0x8000, 0x0080, 0x7fff, 0xffff] + [rnd.randrange(65536) for _ in range(40 if thorough else 8)]
     xid = 7000
     n = 0
-    for rep in range(6 if thorough else 2):
+    for rep in range(5 if thorough else 2):  # 5 x 45 clients fit the 241-address pool
         for fl in flagset:
             n += 1
             mac = bytes([2, 0x12, 0, (n >> 8) & 0xFF, n & 0xFF, 7])
